@@ -1,7 +1,7 @@
 /-
 `unlockedDeleteHostInfo` as a whole (any state whose per-address lists are duplicate free).
 -/
-import Nebula.Lemmas.HostMapDelete
+import Nebula.Lemmas.HostMapRelay
 
 namespace Nebula.HostMap
 open FMap
@@ -12,7 +12,9 @@ structure DeleteSpec (s : State) (h : Nat) (t : State) (final : Bool) : Prop whe
   rep : Rep t
   indexes : ∀ i, t.indexes.get i = if i = (s.obj h).lidx ∧ s.indexes.get i = some h then none else s.indexes.get i
   rindexes : ∀ i, t.rindexes.get i = if i = (s.obj h).ridx ∧ s.rindexes.get i = some h then none else s.rindexes.get i
-  relays : ∀ i, t.relays.get i = if i ∈ (s.obj h).relays ∧ s.relays.get i = some h then none else s.relays.get i
+  relays : ∀ i, t.relays.get i =
+    if ((t.rstate h).byIdx.get i).isSome = true ∧ s.relays.get i = some h then none else s.relays.get i
+  rs : ∀ x, RsLe (s.rstate x) (t.rstate x)
   objs : t.objs = s.objs
   vpnIps : t.vpnIps = s.vpnIps
   pidx : t.pidx = s.pidx
@@ -22,7 +24,7 @@ theorem condDelIdx_spec (s : State) (h k : Nat) :
     (∀ i, (condDelIdx s h k).indexes.get i = if i = k ∧ s.indexes.get i = some h then none else s.indexes.get i) ∧
     (condDelIdx s h k).hosts = s.hosts ∧ (condDelIdx s h k).more = s.more ∧ (condDelIdx s h k).rindexes = s.rindexes ∧
     (condDelIdx s h k).relays = s.relays ∧ (condDelIdx s h k).objs = s.objs ∧ (condDelIdx s h k).vpnIps = s.vpnIps ∧
-    (condDelIdx s h k).pidx = s.pidx ∧ (condDelIdx s h k).next = s.next := by
+    (condDelIdx s h k).pidx = s.pidx ∧ (condDelIdx s h k).next = s.next ∧ (condDelIdx s h k).rs = s.rs := by
   unfold condDelIdx
   by_cases c : s.indexes.get k = some h
   · simp only [c, ↓reduceIte, get_del, and_self, and_true]
@@ -40,7 +42,7 @@ theorem condDelRidx_spec (s : State) (h k : Nat) :
     (∀ i, (condDelRidx s h k).rindexes.get i = if i = k ∧ s.rindexes.get i = some h then none else s.rindexes.get i) ∧
     (condDelRidx s h k).hosts = s.hosts ∧ (condDelRidx s h k).more = s.more ∧ (condDelRidx s h k).indexes = s.indexes ∧
     (condDelRidx s h k).relays = s.relays ∧ (condDelRidx s h k).objs = s.objs ∧ (condDelRidx s h k).vpnIps = s.vpnIps ∧
-    (condDelRidx s h k).pidx = s.pidx ∧ (condDelRidx s h k).next = s.next := by
+    (condDelRidx s h k).pidx = s.pidx ∧ (condDelRidx s h k).next = s.next ∧ (condDelRidx s h k).rs = s.rs := by
   unfold condDelRidx
   by_cases c : s.rindexes.get k = some h
   · simp only [c, ↓reduceIte, get_del, and_self, and_true]
@@ -60,28 +62,35 @@ theorem deleteHost_spec (s : State) (h : Nat) (hr : Rep s) (hn : ∀ a, (hostLis
   generalize hs1 : (s.obj h).addrs.foldl (delAddrStep h) (s, true) = r1 at l1 l2 l3 l4
   obtain ⟨s1, f1⟩ := r1
   simp only at l1 l2 l3 l4
-  have e : deleteHost s h =
-      ((s.obj h).relays.foldl (delRelayStep h) (condDelIdx (condDelRidx s1 h (s.obj h).ridx) h (s.obj h).lidx), f1) := by
-    simp only [deleteHost, hs1]
+  obtain ⟨r1, r2, r3, r4, r5, r6, r7, r8, r9, r10⟩ := condDelRidx_spec s1 h (s.obj h).ridx
+  generalize hs2 : condDelRidx s1 h (s.obj h).ridx = s2 at *
+  obtain ⟨i1, i2, i3, i4, i5, i6, i7, i8, i9, i10⟩ := condDelIdx_spec s2 h (s.obj h).lidx
+  generalize hs3 : condDelIdx s2 h (s.obj h).lidx = s3 at *
+  have hd : SameButRs s3 (if f1 = true then disestablish s3 h else s3) := by
+    split
+    · exact disestablish_same s3 h
+    · exact SameButRs.refl s3
+  generalize hsd : (if f1 = true then disestablish s3 h else s3) = sd at hd
+  have e : deleteHost s h = ((sd.rstate h).byIdx.keys.foldl (delRelayStep h) sd, f1) := by
+    simp only [deleteHost, hs1, hs2, hs3, hsd]
   rw [e]
-  obtain ⟨r1, r2, r3, r4, r5, r6, r7, r8, r9⟩ := condDelRidx_spec s1 h (s.obj h).ridx
-  generalize condDelRidx s1 h (s.obj h).ridx = s2 at *
-  obtain ⟨i1, i2, i3, i4, i5, i6, i7, i8, i9⟩ := condDelIdx_spec s2 h (s.obj h).lidx
-  generalize condDelIdx s2 h (s.obj h).lidx = s3 at *
-  obtain ⟨q1, q2, q3, q4, q5, q6, q7, q8, q9⟩ := delRelayLoop_spec h (s.obj h).relays s3
-  generalize (s.obj h).relays.foldl (delRelayStep h) s3 = s4 at *
+  obtain ⟨q1, q2, q3, q4, q5, q6, q7, q8, q9, q10⟩ := delRelayLoop_spec h (sd.rstate h).byIdx.keys sd
+  generalize (sd.rstate h).byIdx.keys.foldl (delRelayStep h) sd = s4 at *
   have hl : ∀ a, hostList s4 a = hostList s1 a := by
-    intro a; simp [hostList, q2, q3, i2, i3, r2, r3]
-  refine ⟨fun a => ?_, by simpa using l2, ?_, fun i => ?_, fun i => ?_, fun i => ?_, ?_, ?_, ?_, ?_⟩
+    intro a; simp [hostList, q2, q3, hd.hosts, hd.more, i2, i3, r2, r3]
+  have hrs4 : ∀ x, s4.rstate x = sd.rstate x := fun x => by simp [State.rstate, q10]
+  have hrs1 : ∀ x, s3.rstate x = s.rstate x := fun x => by simp [State.rstate, i10, r10, l4.rs]
+  refine ⟨fun a => ?_, by simpa using l2, ?_, fun i => ?_, fun i => ?_, fun i => ?_, fun x => ?_, ?_, ?_, ?_, ?_⟩
   · rw [hl a, l1 a]
   · intro a l hml
-    rw [q3, i3, r3] at hml; rw [q2, i2, r2]; exact l3 a l hml
-  · rw [q4, i1, r4, l4.indexes]
-  · rw [q5, i4, r1, l4.rindexes]
-  · rw [q1, i5, r5, l4.relays]
-  · rw [q6, i6, r6, l4.objs]
-  · rw [q7, i7, r7, l4.vpnIps]
-  · rw [q8, i8, r8, l4.pidx]
-  · rw [q9, i9, r9, l4.next]
+    rw [q3, hd.more, i3, r3] at hml; rw [q2, hd.hosts, i2, r2]; exact l3 a l hml
+  · rw [q4, hd.indexes, i1, r4, l4.indexes]
+  · rw [q5, hd.rindexes, i4, r1, l4.rindexes]
+  · rw [q1, hd.relays, i5, r5, l4.relays, hrs4]; simp only [mem_keys_iff]
+  · rw [hrs4, ← hrs1]; exact hd.rs x
+  · rw [q6, hd.objs, i6, r6, l4.objs]
+  · rw [q7, hd.vpnIps, i7, r7, l4.vpnIps]
+  · rw [q8, hd.pidx, i8, r8, l4.pidx]
+  · rw [q9, hd.next, i9, r9, l4.next]
 
 end Nebula.HostMap
